@@ -26,6 +26,9 @@ import (
 
 func TestMain(m *testing.M) {
 	gen.Setup()
+	if multiBackendProcess() {
+		registerSecondBackend()
+	}
 	code := m.Run()
 	h.FlushAll()
 	os.Exit(code)
@@ -892,6 +895,12 @@ func TestReplay(t *testing.T) {
 		t.Skip("no replay requested")
 	}
 	switch part := h.ReplayPart(p); part {
+	case "multi":
+		var c MultiCase
+		if err := h.LoadReplay(p, &c); err != nil {
+			t.Fatal(err)
+		}
+		h.Begin("C17", "replay").Report(t, c, runMultiCase(c))
 	case "constraints":
 		var c ConsCase
 		if err := h.LoadReplay(p, &c); err != nil {
